@@ -296,6 +296,9 @@ def runMonitor (s : State) (mon : Monitor) : State × List Out :=
   | .none => (s, [])
 
 /-- `TokenManager.dispatch_error`: fail the requests to and stop the requests from `remote` -/
+-- (An error for a *multicast destination address* ends the requests sent to it as well — the code
+-- compares the request message's own remote, tokenmanager.py:97-102 — ; multicast requests carry
+-- `remote := none` here, that case is `out-of-model` in the driver.)
 def tokenDispatchError (s : State) (remote : Remote) (kind : ErrKind) : State × List Out :=
   if s.shutTok then (s, []) else
   let failed := s.outgoing.filter (fun o => o.remote == some remote)
